@@ -58,7 +58,7 @@ def run_lex(v, exe, cfglist, seed, tag):
 def check_C01(tier, seed):
     v = Verdict("C01", tier, seed)
     exe = build_driver("asan")
-    for c in cfgs(tier, ["C01_quick.cfg", "C01_nocase_titles.cfg", "C01_lists.cfg"], ["C01_len7.cfg", "C01_two_parses.cfg"]):
+    for c in cfgs(tier, ["C01_quick.cfg", "C01_nocase_titles.cfg", "C01_lists.cfg", "C01_drop.cfg"], ["C01_len7.cfg", "C01_two_parses.cfg"]):
         res = tlc_parse(v, c, INV_PARSE)
         # canonical and seeded varied rendering through cfg_parse_buf; the same bytes through cfg_parse_fp
         # (a stream) and cfg_parse (a file) must give the same result
@@ -103,13 +103,13 @@ def check_C06(tier, seed):
 def check_C15(tier, seed):
     v = Verdict("C15", tier, seed)
     exe = build_driver("asan")
-    for c in cfgs(tier, ["comments_quick.cfg", "comments_long.cfg"], ["comments_thorough.cfg"]):
+    for c in cfgs(tier, ["comments_quick.cfg", "comments_long.cfg", "comments_list.cfg"], ["comments_thorough.cfg"]):
         res = tlc_parse(v, c, INV_LINES)
-        if "long" in c:
+        if "long" in c or "list" in c:
             # annotations next to long quoted values: only the runs with annotation support on matter here
             res.behaviours = [b for b in res.behaviours if b["pcfg"]["comments"]]
         parsecheck.replay(v, exe, res, aspects={"tree", "diag"}, seed=seed,
-                          renderings=("varied",) if "long" not in c else ("canonical",), tag="C15")
+                          renderings=("varied",) if c == "comments_quick.cfg" else ("canonical",), tag="C15")
     v.cov["exhaustive"] = True
     return v.finish(rule="every token sequence up to the configured length with comment tokens (empty and non-empty, "
                          "all three styles chosen by the renderer) at every token boundary, annotation support on and off")
@@ -118,8 +118,10 @@ def check_C15(tier, seed):
 def check_C12(tier, seed):
     v = Verdict("C12", tier, seed)
     exe = build_driver("asan")
-    for c in cfgs(tier, ["ignore_quick.cfg"], ["ignore_thorough.cfg"]):
+    for c in cfgs(tier, ["ignore_quick.cfg", "ignore_kv.cfg", "ignore_two.cfg"], ["ignore_comments.cfg", "ignore_thorough.cfg"]):
         res = tlc_parse(v, c, INV_IGNORE)
+        if c == "ignore_two.cfg":
+            res.behaviours = [b for b in res.behaviours if len(b["parses"]) == 2]
         parsecheck.replay(v, exe, res, aspects={"tree", "diag", "balance"}, seed=seed,
                           renderings=("canonical",), tag="C12")
     stress.run(v, exe, tier, tag="C12", only=("deep-unknown",))
@@ -188,7 +190,8 @@ def check_C09(tier, seed):
         apicheck.replay(v, exe, res, aspects={"tree", "freed", "balance"}, seed=seed, tag="C09")
         if c == "api_nopre_quick.cfg":
             # the cfg_opt_* entry points must behave like their by-name forms (no pre-set validation callback there)
-            res.behaviours = [b for b in res.behaviours if b["calls"][-1]["call"]["name"] not in ("vi", "vs", "vf")]
+            res.behaviours = [b for b in res.behaviours if b["calls"][-1]["call"]["name"] not in ("vi", "vs", "vf")
+                              and (tier == "thorough" or len(b["calls"]) <= 2)]
             apicheck.replay(v, exe, res, aspects={"tree"}, seed=seed, tag="C09opt", optvariant=True, sigprefix="api-opt")
     from . import tracegen
     tracegen.run(v, exe, 120 if tier == "quick" else 2500, seed + 17, tag="C09trace", texts_per=1, calls_per=25)
@@ -255,7 +258,7 @@ def check_C05(tier, seed):
 def check_C03(tier, seed):
     v = Verdict("C03", tier, seed)
     exe = build_driver("asan")
-    run_lex(v, exe, cfgs(tier, ["lex_dq_quick.cfg", "lex_dqesc_quick.cfg", "lex_sq_quick.cfg", "lex_comment4_quick.cfg",
+    run_lex(v, exe, cfgs(tier, ["lex_dq_quick.cfg", "lex_dqesc_quick.cfg", "lex_octal_quick.cfg", "lex_sq_quick.cfg", "lex_comment4_quick.cfg",
                                 "lex_dqenv_quick.cfg", "lex_env_quick.cfg", "lex_slash_quick.cfg"],
                          ["lex_dq_thorough.cfg", "lex_sq_thorough.cfg", "lex_comment_quick.cfg"]), seed, "C03")
     v.cov["exhaustive"] = True
@@ -271,6 +274,9 @@ def check_C02(tier, seed):
     res = tlc_parse(v, "C02_parse_quick.cfg", INV_PARSE[2:])
     parsecheck.replay(v, exe, res, aspects={"balance"}, seed=seed, renderings=("canonical",), tag="C02")
     # the same kind of input on a context that has a search path (sections share the path list)
+    # annotation support and ignore-unknown together (comments in front of discarded items)
+    res = tlc_parse(v, "ignore_comments.cfg", INV_IGNORE)
+    parsecheck.replay(v, exe, res, aspects={"balance"}, seed=seed, renderings=("canonical",), tag="C02ic")
     res = tlc_parse(v, "C07_titles.cfg", INV_PARSE[2:])
     parsecheck.replay(v, exe, res, aspects={"balance"}, seed=seed, renderings=("canonical",), tag="C02sp",
                       extra_before=["fs dir $R/d1", "searchpath c1 $R/d1"], sigprefix="parse+searchpath")
